@@ -5,6 +5,8 @@ package c08
 import (
 	"fmt"
 	"reflect"
+	"strconv"
+	"strings"
 	"testing"
 
 	ucfg "github.com/elastic/go-ucfg"
@@ -166,13 +168,101 @@ func runCase(c Case, r *runlog.R) error {
 	if err := siblings(cfg, c, w, opts, r); err != nil {
 		return err
 	}
-	// FlattenedKeys: termination only. Which keys a reference to an object or list contributes is not stated
-	// (the library reports the paths of the referenced settings), so the key set is not compared here; C15
-	// compares it for configurations without references.
-	_ = keys
+	// FlattenedKeys on a tree whose whole evaluation never re-enters a reference and succeeds: every key must be
+	// the path of a non-nil primitive of the evaluated tree and their number must be the number of such
+	// primitives. (Which path a reference to an object or list contributes its primitives under is not stated -
+	// the library reports the paths of the referenced settings - so key sets are not compared; a reference that
+	// is wrongly taken for cyclic shows up as a key that leads to a container, and in the count.)
+	w.Reset()
+	whole, werr := w.Eval(c.Root)
+	ownOnly := !w.FromEnv && !w.FromResolver // values from Env configs and resolvers carry paths of their own
+	if !w.SawCycle && werr == nil && ownOnly && !splicedContainer(c.Root, w) {
+		n := countPrims(whole)
+		for _, k := range keys {
+			v, ok := lookupData(whole, k)
+			if !ok {
+				return fmt.Errorf("FlattenedKeys returned %q, which is no path of the evaluated tree %s (keys %v)", k, canon.Show(whole), keys)
+			}
+			switch v.(type) {
+			case map[string]interface{}, []interface{}, nil:
+				return fmt.Errorf("FlattenedKeys returned %q, which leads to %s, not to a non-nil primitive (keys %v, evaluated tree %s)", k, canon.Show(v), keys, canon.Show(whole))
+			}
+		}
+		if len(keys) != n {
+			return fmt.Errorf("FlattenedKeys returned %d keys %v, the evaluated tree %s has %d non-nil primitive settings", len(keys), keys, canon.Show(whole), n)
+		}
+		r.Class("FlattenedKeys checked against the evaluated tree")
+	}
 	r.ClassIf(anyCycle, "case has a cycle")
 	r.NonTrivialIf(nt)
 	return nil
+}
+
+func countPrims(v interface{}) int {
+	switch x := v.(type) {
+	case map[string]interface{}:
+		n := 0
+		for _, e := range x {
+			n += countPrims(e)
+		}
+		return n
+	case []interface{}:
+		n := 0
+		for _, e := range x {
+			n += countPrims(e)
+		}
+		return n
+	case nil:
+		return 0
+	}
+	return 1
+}
+
+func lookupData(v interface{}, path string) (interface{}, bool) {
+	for _, seg := range strings.Split(path, ".") {
+		switch x := v.(type) {
+		case map[string]interface{}:
+			e, ok := x[seg]
+			if !ok {
+				return nil, false
+			}
+			v = e
+		case []interface{}:
+			i, err := strconv.Atoi(seg)
+			if err != nil || i < 0 || i >= len(x) {
+				return nil, false
+			}
+			v = x[i]
+		default:
+			return nil, false
+		}
+	}
+	return v, true
+}
+
+// splicedContainer reports whether some string with several pieces evaluates to text that is re-parsed into a
+// list or object: the paths of such parsed elements are not settings of the tree.
+func splicedContainer(root *vx.Node, w *vx.World) bool {
+	found := false
+	var walk func(n *vx.Node)
+	walk = func(n *vx.Node) {
+		if n.K == "expr" {
+			if _, direct := vx.DirectName(n.Expr); !direct {
+				w.Reset()
+				if v, err := w.Eval(n); err == nil {
+					switch v.(type) {
+					case map[string]interface{}, []interface{}:
+						found = true
+					}
+				}
+			}
+		}
+		for _, c := range n.Vals {
+			walk(c)
+		}
+	}
+	walk(root)
+	return found
 }
 
 func siblings(cfg *ucfg.Config, c Case, w *vx.World, opts []ucfg.Option, r *runlog.R) error {
